@@ -102,11 +102,13 @@ func verifIsBookkeeping(k []byte) bool {
 func VerifC01Parser() {
 	k := verifParam("KP", 2)
 	cfg := RedisOutputConfig{InputName: "in", CheckpointName: "cp", RunId: "rid1", TargetDb: -1}
-	switch verifChoose("dbmap", 3) {
+	switch verifChoose("dbmap", 4) {
 	case 1:
-		cfg.TargetDbMap = map[int]int{1: 2}
+		cfg.TargetDbMap = map[int]int{1: 2} // two source DBs share one target DB
 	case 2:
 		cfg.TargetDb = 0
+	case 3:
+		cfg.TargetDbMap = map[int]int{1: 2, 2: 1} // a swap: source-space and target-space numbers coincide without meaning the same DB
 	}
 	cfg.Filter.DbBlacklist = []int{3}
 	cfg.Filter.CmdBlacklist = []string{"spop"}
